@@ -116,7 +116,7 @@ func (r *reflCtx) dynHasKind(fn *ssa.Function, at ssa.Instruction, a ssa.Value, 
 	// contract parameter
 	if p, ok := a.(*ssa.Parameter); ok {
 		for _, ct := range contracts[an.ShortName(fn)] {
-			if ct.param == p.Name() && ct.mode == "dyn" && subset(ct.kinds, kinds) {
+			if ct.param == an.CanonParam(p) && ct.mode == "dyn" && subset(ct.kinds, kinds) {
 				return true, "contract of " + an.ShortName(fn) + ": " + p.Name() + " is a non-nil " + strings.Join(ct.kinds, "|")
 			}
 		}
@@ -125,7 +125,7 @@ func (r *reflCtx) dynHasKind(fn *ssa.Function, at ssa.Instruction, a ssa.Value, 
 	if fv := fn.Parent(); fv != nil {
 		if p, ok := a.(*ssa.Parameter); ok && p.Parent() == fv {
 			for _, ct := range contracts[an.ShortName(fv)] {
-				if ct.param == p.Name() && ct.mode == "dyn" && subset(ct.kinds, kinds) {
+				if ct.param == an.CanonParam(p) && ct.mode == "dyn" && subset(ct.kinds, kinds) {
 					return true, "contract of " + an.ShortName(fv)
 				}
 			}
@@ -178,7 +178,7 @@ func (r *reflCtx) typeHasKind(fn *ssa.Function, at ssa.Instruction, v ssa.Value,
 	switch x := v.(type) {
 	case *ssa.Parameter:
 		for _, ct := range contracts[an.ShortName(fn)] {
-			if ct.param == x.Name() && ct.mode == "type" && subset(ct.kinds, kinds) {
+			if ct.param == an.CanonParam(x) && ct.mode == "type" && subset(ct.kinds, kinds) {
 				return true, "contract of " + an.ShortName(fn) + ": " + x.Name() + " is a " + strings.Join(ct.kinds, "|")
 			}
 		}
@@ -294,7 +294,7 @@ func (r *reflCtx) valueHasKind(fn *ssa.Function, at ssa.Instruction, v ssa.Value
 	switch x := v.(type) {
 	case *ssa.Parameter:
 		for _, ct := range contracts[an.ShortName(fn)] {
-			if ct.param == x.Name() && ct.mode == "value" && subset(ct.kinds, kinds) {
+			if ct.param == an.CanonParam(x) && ct.mode == "value" && subset(ct.kinds, kinds) {
 				return true, "contract of " + an.ShortName(fn) + ": " + x.Name() + " is a " + strings.Join(ct.kinds, "|") + " value"
 			}
 		}
@@ -447,7 +447,7 @@ func ruleRefl(rule string) RuleFn {
 			for _, ct := range contracts[cn] {
 				idx := -1
 				for i, p := range target.Params {
-					if p.Name() == ct.param {
+					if an.CanonParam(p) == ct.param {
 						idx = i
 					}
 				}
@@ -677,6 +677,9 @@ func ruleP1(rule string) RuleFn {
 			}
 			n++
 			pn := "p:" + p0.Name()
+			if len(fn.Params) > 1 {
+				pn = "p:" + an.CanonParam(fn.Params[1])
+			}
 			an.Instrs(fn, func(in ssa.Instruction) {
 				k, ok := in.(ssa.CallInstruction)
 				if !ok {
